@@ -343,8 +343,14 @@ def attenuated(x, t, suspect_threshold, fail_threshold, test_period=None, min_ob
                min_period=None, check_type="std"):
     if check_type not in ("std", "range"):
         raise Reject(ValueError)
+    import bisect
+
     n = len(x)
     present_all = [v for v in x if not miss(v)]
+    increasing = all(t[k] < t[k + 1] for k in range(n - 1)) if test_period else False
+    whole = None
+    if not test_period and present_all:
+        whole = _pstdev(present_all) if check_type == "std" else max(present_all) - min(present_all)
     out = []
     for i in range(n):
         if miss(x[i]):
@@ -353,9 +359,12 @@ def attenuated(x, t, suspect_threshold, fail_threshold, test_period=None, min_ob
         missing_in_window = False
         if not test_period:
             w = present_all
-            s = (_pstdev(w) if check_type == "std" else max(w) - min(w)) if w else None
+            s = whole
         else:
-            idx = [j for j in range(n) if t[i] - test_period < t[j] <= t[i]]
+            if increasing:  # same set as the definition below, found by bisection
+                idx = range(bisect.bisect_right(t, t[i] - test_period), i + 1)
+            else:
+                idx = [j for j in range(n) if t[i] - test_period < t[j] <= t[i]]
             w = [x[j] for j in idx if not miss(x[j])]
             missing_in_window = any(miss(x[j]) for j in idx)
             if min_obs is not None:
